@@ -113,11 +113,40 @@ fn run(case: &mut Case) -> Result<Outcome, String> {
     match kind {
         0 => {
             // integer-valued data: every partial sum is exact, so any association gives the same bits
-            let x: Vec<f64> = (0..n).map(|_| case.src.small_int(1000) as f64).collect();
-            let y: Vec<f64> = (0..n).map(|_| case.src.small_int(1000) as f64).collect();
-            case.describe(|| format!("workers={} n={} integer data x[..8]={:?} y[..8]={:?}", k, n, &x[..n.min(8)], &y[..n.min(8)]));
-            let exact: i128 = x.iter().zip(&y).map(|(a, b)| (*a as i128) * (*b as i128)).sum();
+            let xi: Vec<f64> = (0..n).map(|_| case.src.small_int(1000) as f64).collect();
+            let yi: Vec<f64> = (0..n).map(|_| case.src.small_int(1000) as f64).collect();
+            let exact: i128 = xi.iter().zip(&yi).map(|(a, b)| (*a as i128) * (*b as i128)).sum();
+            // the same integers at other (exact power-of-two) scales: every product and partial sum stays exact,
+            // also when the products are subnormal (e1 + e2 down to -1060) or huge
+            let (e1, e2) = if case.src.below(3) == 0 { (case.src.range(-530, 450) as i32, case.src.range(-530, 450) as i32) } else { (0, 0) };
+            let x: Vec<f64> = xi.iter().map(|v| v * 2f64.powi(e1)).collect();
+            let y: Vec<f64> = yi.iter().map(|v| v * 2f64.powi(e2)).collect();
+            case.describe(|| format!("workers={} n={} integer data * 2^{} / 2^{}: x[..8]={:?} y[..8]={:?}", k, n, e1, e2, &xi[..n.min(8)], &yi[..n.min(8)]));
             let (vx, vy) = (Vector::create(x.clone()), Vector::create(y.clone()));
+            if e1 != 0 || e2 != 0 {
+                case.class("exact data scaled by powers of two");
+                let got = match catch(|| vx.dot_f64(&vy)) {
+                    Ok(v) => v,
+                    Err(e) => return Err(format!("dot_f64 panicked with {} workers and length {}: {}", k, n, e)),
+                };
+                let seq = vx.dot(&vy);
+                let want = (exact as f64) * 2f64.powi(e1) * 2f64.powi(e2);
+                if got.to_bits() != seq.to_bits() && got != seq {
+                    return Err(format!("dot_f64 = {:e} differs from dot = {:e} on exactly summable data scaled by 2^{} and 2^{} ({} workers, length {})", got, seq, e1, e2, k, n));
+                }
+                if got != want {
+                    return Err(format!("dot_f64 = {:e}, exact value {:e} (integers scaled by 2^{} and 2^{}; {} workers, length {})", got, want, e1, e2, k, n));
+                }
+                return Ok(Outcome::Pass);
+            }
+            // the same object on both sides
+            {
+                let selfdot = vx.dot_f64(&vx);
+                let want: i128 = xi.iter().map(|a| (*a as i128) * (*a as i128)).sum();
+                if selfdot != want as f64 || selfdot != vx.dot(&vx) {
+                    return Err(format!("v.dot_f64(&v) = {} but the exact value is {} (sequential {}) with {} workers, length {}", selfdot, want, vx.dot(&vx), k, n));
+                }
+            }
             let got = match catch(|| vx.dot_f64(&vy)) {
                 Ok(v) => v,
                 Err(e) => return Err(format!("dot_f64 panicked with {} workers and length {}: {}", k, n, e)),
@@ -184,7 +213,7 @@ impl Prop for C16 {
     fn rule(&self) -> String {
         "stream prefix (workers k in 1..=16, short/long, length, data kind): all 16 x 201 combinations of k and length 0..=200 are enumerated in every run for the exact-integer data kind (and for the other two kinds over all lengths <= 17 plus a stride in the quick tier, all lengths in the thorough tier), plus random lengths up to 20000 (thorough 100000); \
          the calling thread is restricted with sched_setaffinity to a k-CPU subset and num_cpus::get() is observed in-process (k not granted by the environment => counted as not covered). \
-         Data kinds: integer-valued data whose partial sums are exact (dot_f64 bit-identical to dot and to an exact i128 dot product), random data of magnitude 1e-5..1e5 (|dot_f64 - dot| <= 2(n+1) eps sum|x_i y_i|), \
+         Data kinds: integer-valued data whose partial sums are exact, one third of it scaled by exact powers of two 2^-530..2^450 per vector so that products may be subnormal or huge (dot_f64 bit-identical to dot and to an exact i128 dot product; also for the aliased call v.dot_f64(&v)), random data of magnitude 1e-5..1e5 (|dot_f64 - dot| <= 2(n+1) eps sum|x_i y_i|), \
          cancellation-prone data (+-1e15 alternating) called 5 to 21 times while spinner threads load the CPUs and the CPU set (same size) moves between calls: all results bit-identical. \
          Non-trivial: length < workers, or length > workers and not divisible by it. distinct = distinct decoded choice sequence."
             .into()
